@@ -145,7 +145,7 @@ func (ps *PacketSpec) Same(k, id int, pt uint8, pkt *rtp.Packet) bool {
 
 // ReaderCfg selects a reading client's transport.
 type ReaderCfg struct {
-	Proto   string // "tcp" | "udp" | "mcast" (the bed must offer multicast)
+	Proto   string // "tcp" | "udp" | "mcast" (the bed must offer multicast) | "auto" (Client.Protocol left nil)
 	Tunnel  string // "" | "http" | "ws"
 	Timeout time.Duration
 	Reorder int   // percentage of inbound UDP datagrams swapped with their successor
@@ -202,6 +202,8 @@ func (b *Bed) newReader(cfg ReaderCfg, path string, onPacket func(medi *descript
 	case "mcast":
 		p := gortsplib.ProtocolUDPMulticast
 		c.Protocol = &p
+	case "auto":
+		// no protocol chosen: UDP first, TCP when nothing arrives
 	default:
 		p := gortsplib.ProtocolTCP
 		c.Protocol = &p
